@@ -254,6 +254,10 @@ def check_case(run, rng, work, k, data, kind, desc, cases, meta):
                 ref = ref_raw if name in ("raw", "raw_data") else ref_scaled
                 if not raw_ts and paths.get("__ts__") and ref[0] == "ok":
                     ref = ("ok", ts_to_us(ref[1]))
+                if ref[0] == "err" and oc[0] == "ok" and not isinstance(oc[1], dict) and len(oc[1]) == 0:
+                    # the bulk read raises (DAQmx data without scaling information) and this path delivers
+                    # NO data (zero-length channel / nothing to iterate): nothing is obtained either way
+                    continue
                 if oc != ref:
                     failed = True
                     run.violation("paths-differ-%s" % name,
@@ -269,6 +273,38 @@ def check_case(run, rng, work, k, data, kind, desc, cases, meta):
     toks, ex = G.read_eager(data)
     cases.append(R.case_all(data, toks))
     meta.append({"data": data, "impl": R.exc_kind(ex) or "tokens", "desc": desc, "oracle_failed": failed})
+    if not kind.startswith("daqmx") and not failed:
+        window_cases(rng, data, desc, failed)
+
+
+WINDOW_CASES = []
+
+
+def window_cases(rng, data, desc, failed):
+    """lazy raw windows of a few channels, to be compared with the byte-level lazy model"""
+    from nptdms import TdmsFile
+    with warnings.catch_warnings():
+        warnings.simplefilter("ignore")
+        with TdmsFile.open(io.BytesIO(data), raw_timestamps=True) as f:
+            chans = [ch for g in f.groups() for ch in g.channels()]
+            rng.shuffle(chans)
+            for ch in chans[:2]:
+                n = len(ch)
+                for _ in range(3):
+                    o = rng.randint(0, n + 1)
+                    ln = rng.choice([None, 0, 1, rng.randint(0, n + 2)])
+                    try:
+                        vals = canon(ch.read_data(o, ln, scaled=False))
+                        if isinstance(vals, dict):
+                            break
+                    except Exception:     # noqa: BLE001
+                        vals = None
+                    obs = "None" if vals is None else "(Some %s)" % H.clist(['hex "%s"' % v.hex() for v in vals])
+                    term = '(hex "%s", hex "%s", %s, %s, %s)' % (
+                        data.hex(), ch.path.encode("utf-8").hex(), H.cz(o), H.copt(ln, H.cz), obs)
+                    WINDOW_CASES.append((term, {"data": data, "path": ch.path, "offs": o, "len": ln,
+                                                "impl": None if vals is None else [v.hex() for v in vals[:8]],
+                                                "desc": desc}))
 
 
 def short(oc):
@@ -291,6 +327,32 @@ def mark_time_channels(data, base):
                     base[ch.path]["__ts__"] = ch.data_type is not None and ch.data_type.enum_value == G.T_TIME
 
 
+LAZY_IMPORTS = R.READER_IMPORTS.replace("Model.Reader.", "Model.Reader Model.LazyRead Model.LazyBytes.")
+
+
+def run_window_cases(run):
+    """Model/LazyBytes.v (metadata pass + chunk decoders + LazyRead.lz_read) vs read_data(o, l, scaled=False)"""
+    terms = [t for t, _ in WINDOW_CASES]
+    if not terms:
+        return
+    bad, errors = H.run_sharded(run.pid, LAZY_IMPORTS, "bytes * bytes * Z * option Z * option (list bytes)",
+                                "agree_window", terms, shard=run.pick(40, 120), tag="windows", timeout=1200)
+    run.corr_errors(errors, "windows")
+    run.count("lazy_windows_compared_with_byte_level_model", len(terms))
+    run.cov["traces_validated_against_impl"] += len(terms) - len(bad)
+    for i in bad[:3]:
+        m = WINDOW_CASES[i][1]
+        rc, out = H.coq_print_terms(run.pid, LAZY_IMPORTS,
+                                    ['lz_read_bytes (hex "%s") (hex "%s") %s %s'
+                                     % (m["data"].hex(), m["path"].encode("utf-8").hex(), H.cz(m["offs"]),
+                                        H.copt(m["len"], H.cz))], tag="show_win_%d" % i)
+        run.violation("corr-lazy-window", "byte-level lazy model and read_data(%d, %r, scaled=False) of %r disagree"
+                      % (m["offs"], m["len"], m["path"]),
+                      {"op": "paths", "hex": m["data"].hex(), "kind": "window", "desc": m["desc"]},
+                      kind="correspondence-broken", theorem="Model.LazyBytes.lz_read_bytes vs TdmsChannel.read_data",
+                      actual=m["impl"], model=out[-2500:], no_input=True)
+
+
 def main():
     run = H.Run("C03")
     run.prove()
@@ -310,6 +372,7 @@ def main():
         if k < 2:
             run.sample({"kind": kind, "segments": desc})
     R.run_agree_all(run, cases, meta, "baseline", "eager baseline")
+    run_window_cases(run)
     run.cov["rule"] = ("random readable files (well-formed as C01, with Linear scaling, truncated in the last segment, DAQmx "
                        "with and without a scale over a DAQmx scaler) x access paths {channel[:], channel[...], read_data(), "
                        "data, iteration, integer indexing forwards and backwards, channel.data_chunks(), "
